@@ -16,6 +16,9 @@ pub(crate) use listener::Listener;
 pub(crate) use listener::ListenerMessage;
 pub(crate) use session::Session;
 pub(crate) use session::SessionMessage;
+#[cfg(feature = "verif")]
+#[allow(unreachable_pub)]
+pub use session::verif_hooks as verif_session;
 
 /// A network port
 pub(crate) type NetworkPort = u16;
